@@ -6,7 +6,7 @@ from harness.common import call, Exn
 from debian_inspector import contents
 
 PNAMES = ['bash', 'libc6', 'g++', 'coreutils', 'a', 'python3.11', 'x-y', 'zsh']
-QUALS = ['', 'utils/', 'non-free/utils/', 'admin/', 'universe/net/']
+QUALS = ['', 'utils/', 'non-free/utils/', 'admin/', 'universe/net/', 'non-free/', 'universe/', 'contrib/', 'contrib/net/', 'non-free/']
 SEGS = ['usr', 'bin', 'share', 'doc', 'a b', 'lib x', 'Level  One.map', 'a   b', 'tab\there', 'x \t y', 'etc', 'f.txt', 'README', 'été', 'x,y', 'FILE', 'LOCATION', '0']
 
 
@@ -123,6 +123,17 @@ def run(ctx):
             rp = call(lambda: to_lists(contents.parse_contents(pp, has_header=header)))
             rg = call(lambda: to_lists(contents.parse_contents(pg, has_header=header)))
             rm = call(lambda: to_lists(contents.parse_contents(pm, has_header=header)))
+            if i % 4 == 0:
+                # a plain file of the same name without ".gz" lying next to the compressed one, holding another table
+                side = pg[:-3]
+                with open(side, 'w', encoding='utf-8') as f2:
+                    f2.write(('FILE LOCATION\n' if header else '') + 'usr/bin/stale   admin/stale-package\n')
+                try:
+                    rs = call(lambda: to_lists(contents.parse_contents(pg, has_header=header)))
+                finally:
+                    os.unlink(side)
+                if rs != rg:
+                    rg = rs
             if rm != rp and rg == rp:
                 rg = rm
             os.unlink(pm)
